@@ -10,8 +10,9 @@ family: replay family (replay/src/*.rs) used to look for a concrete failing inpu
 L0_DECIMAL = "assumed L0 model of rust_decimal::Decimal (vx/prelude/rust_decimal.rs): machine decimal arithmetic treated as mathematical (exact, total + - *; / requires non-zero divisor; rounding only constrained to keep zero and sign)"
 L0_HANDLES = "assumed: Commodity/Account are Copy handles whose Eq/Hash is identity and obey the HashMap key model (vx/prelude/handles.rs)"
 L0_STD = "assumed std specs added by hand: Entry::or_default, Option::{copied,or,replace}, u8::is_ascii_digit (vx/prelude/std_gaps*.rs); vstd's own specs of HashMap/Vec/Option/Result"
-L1_AMOUNT = ("assumed contracts on repo functions neither verifier can take (L1, bodies dropped by R16): Amount::{is_zero, remove_zero_entries, maybe_pair, round, negate, check_div}, "
-             "AddAssign<Amount>/SubAssign/MulAssign<Decimal> for Amount (HashMap::iter_mut / retain / zip / into_iter)")
+L1_AMOUNT = ("Amount's loops over its HashMap (round_mut, negate, check_div, mul_assign, add_assign, sub_assign, remove_zero_entries, maybe_pair; formerly assumed L1 contracts) are now PROVED on text obtained by the "
+             "mechanical loop rewrites R25 (iter_mut -> key snapshot + get/insert), R25b (into_iter -> entry snapshot), R25c (retain -> key snapshot + remove), R24 (zip/skip/next -> first two entries); what stays ASSUMED is "
+             "std's iteration contract in vx/prelude/hashmap_iter_models.rs (every entry exactly once in an unspecified order; two iter() calls over an unmodified map agree) and that `x op= y` on `&mut Decimal` forwards to Decimal (R26)")
 L1_BOOK = "assumed contracts (L1): ComputedPosting::{compute_from_syntax, calculate_converted_amount} (closures over &mut ctx + Option::transpose), Evaluable::eval_mut as a deterministic function of (expr, ctx) that only extends the stores, PriceRepositoryBuilder::insert_impl (requires non-zero divisor)"
 STUBS = "hand-written stand-ins for GAT syntax types (vx/prelude/syntax_stub.rs) and ReportContext (ctx_stub.rs): exactly the fields read; rustc type-checks extracted bodies against them"
 
@@ -88,6 +89,30 @@ PROPS = {
         "not_decided": ["winnow parser totality on arbitrary text", "self-including files (load_impl recursion has no measure)", "cli main error mapping"],
         "unwind_is_violation": ["parse_error_new_bounded"],
     },
+    "C13": {
+        "level": "other",
+        "verus": [("determinism", None), ("amounts", ["TryFrom<&Amount> for SingleAmount"])],
+        "kani": {"quick": [], "thorough": []},
+        "family": ("c13", {"quick": [], "thorough": []}),
+        "technique": "contract-based deductive verification: determinism phrased as 'the result is a function of the map's contents': Verus proves that the statements fixing an output order return the canonical "
+                     "(strictly key-sorted, complete, duplicate-free) listing of the hash map, and that the canonical listing is unique; bounded stand-in: the same input run 24 times in one process with fresh hash seeds",
+        "explanation": "PARTIAL.  C13 is a 2-safety property (two runs agree); it is decided here in the contract form 'every order that reaches the output is a function of the hash map's CONTENTS'.  Verus' HashMap "
+                       "model leaves iteration order unconstrained (that is the per-process seed), so an order-dependent result cannot satisfy such a postcondition.  Proved on text extracted from /repo: the "
+                       "function Amount::sorted_values that fixes the printing and iteration order of a multi-commodity amount (balance, register, eval, error texts, first missing rate), Balance::into_vec (account order of the "
+                       "balance report), the statements of Ledger::balance that order the accounts before conversion, the statements of compute_price_table that order the neighbours of a commodity (tie-breaking among "
+                       "equally distant rates) and the statements of MatchAndExpr::try_from that fix the order of a rewrite rule's field matchers each return the canonical listing (every entry once, strictly increasing key); lemma_canonical_unique "
+                       "proves that two canonical listings of the same map are equal, so two runs agree.  SingleAmount::try_from(&Amount) never picks 'the first' entry of a multi-commodity amount (C08 obligation reused).  "
+                       "Four genuine defects were found and fixed (f727f42, bdc6d41, f33a1e3, 4d6c148).  Bounded: the c13 family runs balance / register / eval / error texts and camt053 / CSV imports 24 times per input in one "
+                       "process (fresh RandomState per map) and compares the texts byte for byte.  NOT decided: the rest of the price search (BinaryHeap order given a fixed push sequence is taken to be deterministic), ReportContext::all_accounts, environment / clock / locale.",
+        "units_doc": ["core/src/report/eval/amount.rs: Amount::sorted_values (+ textual anchors in InlinePrintAmount::fmt and Amount::iter), TryFrom<&Amount> for SingleAmount", "core/src/report/balance.rs: Balance::into_vec",
+                      "core/src/report/query.rs: Ledger::balance (account order before conversion, sliced)", "core/src/report/price_db.rs: compute_price_table (neighbour order, sliced)",
+                      "cli/src/import/extract.rs: TryFrom<&FieldMatcher> for MatchAndExpr (order statements, sliced)", "lemmas: det::lemma_canonical_unique, det::lemma_sorted_perm_canonical, theorem_*_listing_deterministic"],
+        "assumptions": [L0_HANDLES, "assumed (R24): HashMap::iter().collect() / into_iter().collect() list every entry exactly once in an unspecified order; slice::sort_unstable_by_key returns a permutation sorted by the key",
+                        "assumed: Ord for str / derive(Ord) for RewriteField are antisymmetric on the keys, i.e. two distinct interned handles of one context never carry the same name",
+                        "the loops that print the listing in index order (write! plumbing) are not under contract"],
+        "bounded": ["c13 family: 9 ledgers x (balance, balance -X up-to-date / historical, register, eval, error text), 4 camt053 rule shapes + 1 CSV rule, 24 runs each in one process"],
+        "not_decided": ["that BinaryHeap pops equal-distance entries in an order fixed by the push sequence (std)", "ReportContext::all_accounts (sorted, not under contract)", "process-level inputs: environment, clock, locale"],
+    },
     "C14": {
         "level": "other",
         "verus": [],
@@ -97,7 +122,7 @@ PROPS = {
                        "entry's slice; ParseError::new reports the first line of the failed entry, an error span starting at the failure offset and ending inside the remaining text, for every entry start and failure "
                        "offset (text <= 4 characters over {LF, CR, a, ;, a 3-byte character}) — bounded; clip / ParsedSpan::resolve map a tracked span inside the entry to entry-relative offsets without underflow — complete (loop-free, full usize).",
         "units_doc": ["core/src/parse/error.rs: compute_line_number, ParseError::new", "core/src/parse/adaptor.rs: clip, ParsedSpan::resolve, ParsedContext::{compute_line_start, as_str}"],
-        "assumptions": ["Kani 0.68 / CBMC 6.11 model of std", "text restricted to <= 4 characters over {LF, CR, a, ;, あ (3 bytes)}; the ParsedContext harness uses ASCII text <= 6 bytes",
+        "assumptions": ["Kani 0.68 / CBMC 6.11 model of std", "text restricted to <= 4 characters over {LF, CR, a, ;, あ (3 bytes)} (both the ParseError and the ParsedContext harness)",
                         "TrackedSpan constructor injected under cfg(kani) (the real one is cfg(test))"],
         "bounded": ["text <= 4 characters (<= 12 bytes) for compute_line_number / ParseError::new, ASCII <= 6 bytes for ParsedContext"],
         "not_decided": ["which file path reaches ErrorContext::new (load_impl, C11)", "rendering by annotate_snippets", "that spans produced by winnow lie inside their entry"],
